@@ -66,6 +66,14 @@ def skipBlockAttributes() -> bool:
     return (safeMode & 0x4) != 0
 
 
+def valueText(value: Any) -> str:
+    '''str(value), also for an integer too long to be converted to a decimal string.'''
+    try:
+        return str(value)
+    except ValueError:
+        return 'integer out of range'
+
+
 def updateFrom(options: RenderOptions) -> None:
     ''' Update specified (non-null) options.'''
     global callback # pylint: disable=global-variable-not-assigned
@@ -77,7 +85,7 @@ def updateFrom(options: RenderOptions) -> None:
     if options.callback is not None:
         callback = options.callback
     if options.safeMode is not None:
-        setOption('safeMode', str(options.safeMode))
+        setOption('safeMode', valueText(options.safeMode))
     if options.htmlReplacement is not None:
         setOption('htmlReplacement', options.htmlReplacement)
 
@@ -90,10 +98,10 @@ def setOption(name: str, value: Any) -> None:
         try:
             n = int(value)
         except:
-            errorCallback('illegal safeMode API option value: ' + str(value))
+            errorCallback('illegal safeMode API option value: ' + valueText(value))
             return
         if n < 0 or n > 15:
-            errorCallback('illegal safeMode API option value: ' + str(value))
+            errorCallback('illegal safeMode API option value: ' + valueText(value))
         else:
             safeMode = n
     elif name == 'reset':
@@ -102,9 +110,9 @@ def setOption(name: str, value: Any) -> None:
         elif value == True or value == 'true':
             document.init()
         else:
-            errorCallback('illegal reset API option value: ' + str(value))
+            errorCallback('illegal reset API option value: ' + valueText(value))
     elif name == 'htmlReplacement':
-        htmlReplacement = str(value)
+        htmlReplacement = valueText(value)
         # Used internally by spans and macros (see io.Reader).
         for ch in '\u0000\u0001\u0002':
             htmlReplacement = htmlReplacement.replace(ch, ' ')
